@@ -46,17 +46,22 @@ def judgeStep (g : Graph) (seqs : List String) (i : Nat) (_prev ob : Json) (seen
 def judge (i : Json) (c : Case) (o : Json) : Option String :=
   let g := c.graph
   let seqs := (g.tasks.map (·.name)).filter (jsonSequential i)
-  if !g.wf then some "hypothesis-violated: a task of the extracted graph lacks a standard output (Graph.wf)"
-  else match seqs.find? (fun n => !g.seqShape n) with
-    | some n => some s!"hypothesis-violated: sequential task {n} lacks the previous-instance prerequisite on its nearest previous point (Graph.seqShape)"
-    | none =>
-      -- the first observation too
-      match obsList o with
-      | [] => none
-      | ob0 :: _ =>
-        match judgeStep g seqs 0 Json.null (Json.mkObj [("pool", (jField? ob0 "pool").getD Json.null)]) [] with
-        | some w => some w
-        | none => scanObs g (obsList o) (judgeStep g seqs)
+  -- the property on the trace (the first observation included)
+  let dyn : Option String :=
+    match obsList o with
+    | [] => none
+    | ob0 :: _ =>
+      match judgeStep g seqs 0 Json.null (Json.mkObj [("pool", (jField? ob0 "pool").getD Json.null)]) [] with
+      | some w => some w
+      | none => scanObs g (obsList o) (judgeStep g seqs)
+  match dyn with
+  | some w => some w
+  | none =>
+    -- the hypotheses of the theorems on the real graph
+    if !g.wf then some "hypothesis-violated: a task of the extracted graph lacks a standard output (Graph.wf)"
+    else match seqs.find? (fun n => !g.seqShape n) with
+      | some n => some s!"hypothesis-violated: sequential task {n} lacks the previous-instance prerequisite on its nearest previous point (Graph.seqShape)"
+      | none => none
 
 def handle (i o : Json) : Except String Reply := do
   if let some r := crashReply? i then return r
